@@ -10,7 +10,7 @@
 --       real `verify` was given: `ok` | `parse-err` | `err:<VerifierError kind>` | `panic`.  Modelled for the
 --       64-bit field with Rp64_256 and descriptions without auxiliary segment; `-` otherwise.
 --       <acceptable> = `os:<q.b.g.x.f.r>[,..]` (OptionSet) | `mc:<bits>` (MinConjecturedSecurity)
--- The mutation families (`flips`, `bytes`, `fields`, `resize`, `reorder`, `remainder`, `partitions`,
+-- The mutation families (`flips`, `bytes`, `fields`, `resize`, `sresize`, `reorder`, `remainder`, `partitions`,
 -- `nonces`, `extras`) run the real verifier and are judged by the harness's oracle; the model answers `-`.
 import Winter.Drv.Util
 import Winter.Model.VerifierChecks
@@ -122,7 +122,7 @@ def handle (toks : List String) : String :=
     | _, _, _, _ => "bad-op"
   | "chan" :: _ => "bad-op"
   | op :: _ =>
-    if ["flips", "bytes", "fields", "resize", "reorder", "remainder", "partitions", "nonces", "extras"].contains op then "-"
+    if ["flips", "bytes", "fields", "resize", "sresize", "reorder", "remainder", "partitions", "nonces", "extras"].contains op then "-"
     else "bad-op"
   | [] => "bad-op"
 
